@@ -132,6 +132,33 @@ class Loader(yaml.SafeLoader):
                     node.style)
         return new_node
 
+    def construct_object(self, node: yaml.Node, deep: bool = False) -> Any:
+        """Construct an object from a node, called by PyYAML.
+
+        PyYAML's constructors for the built-in scalar types convert
+        the text using int(), float(), datetime() and so on, and let
+        the exceptions these raise on malformed values such as
+        ``!!int abc``, ``0x_`` or ``2001-13-45`` escape. We report
+        those as a RecognitionError, like any other invalid input.
+
+        Args:
+            node: The node to construct an object from.
+            deep: Whether to construct subobjects immediately.
+
+        Returns:
+            The constructed object.
+        """
+        try:
+            return super().construct_object(node, deep)
+        except (
+                ValueError, KeyError, IndexError, AttributeError,
+                OverflowError) as e:
+            if not isinstance(node, yaml.ScalarNode):
+                raise
+            raise RecognitionError((
+                '{}\nInvalid value "{}" for a scalar with tag {}: {}'
+                ).format(node.start_mark, node.value, node.tag, e))
+
     def __type_to_tag(self, type_: Type) -> str:
         """Convert a type to the corresponding YAML tag.
 
